@@ -15,6 +15,13 @@ def flows : List (String × List String) := [
   ("introspect", ["query_client", "query_token", "respond"]),
   ("resource_access", ["query_token"]),
   ("implicit", ["query_client", "gen", "save_token", "respond"]),
+  ("oidc_authorize_code", ["query_client", "exists_nonce", "gen", "save_authorization_code", "respond"]),
+  ("oidc_redeem_code", ["query_client", "query_authorization_code", "authenticate_user", "gen", "gen", "save_token", "delete_authorization_code", "respond"]),
+  ("oidc_implicit_id_token", ["query_client", "exists_nonce", "gen", "respond"]),
+  ("oidc_implicit_id_token_token", ["query_client", "exists_nonce", "gen", "save_token", "respond"]),
+  ("oidc_hybrid_code_id_token", ["query_client", "exists_nonce", "gen", "save_authorization_code", "gen", "respond"]),
+  ("oidc_hybrid_code_token", ["query_client", "exists_nonce", "gen", "save_authorization_code", "gen", "save_token", "respond"]),
+  ("oidc_hybrid_code_id_token_token", ["query_client", "exists_nonce", "gen", "save_authorization_code", "gen", "save_token", "respond"]),
   ("oauth1_initiate", ["get_client_by_id", "exists_nonce", "create_temporary_credential", "gen", "gen", "respond"]),
   ("oauth1_authorize", ["get_temporary_credential", "get_client_by_id", "create_authorization_verifier", "gen", "respond"]),
   ("oauth1_exchange", ["get_client_by_id", "get_temporary_credential", "exists_nonce", "create_token_credential", "gen", "gen", "delete_temporary_credential", "respond"]),
